@@ -456,6 +456,11 @@ def prepare_evo_wash_parameters(
             # User-specified integers from 1-8 need to be converted to Tecan logic
             tip = int_to_tip(tip)
         tecan_tips.append(tip)
+    for tip in tecan_tips:
+        if not isinstance(tip, Tip) or tip == Tip.Any:
+            raise ValueError(f"Invalid tips: {tip}. Has to be int or Tip out of tips 1-8.")
+    if len(set(tecan_tips)) != len(tecan_tips):
+        raise ValueError("Invalid tips: Tips have to be distinct.")
 
     if waste_location is None:
         raise ValueError("Missing required parameter: waste_location")
